@@ -25,7 +25,7 @@ PROPS = {
                 assumptions=["'attained at the model's own top/bottom' is asserted for models whose min depth is 0 and whose max depth is constant (the documentation calls the top temperature the surface temperature)",
                              "the 100-term plate series may overshoot next to the surface at young ages (Gibbs): 9% of the jump is allowed at depths shallower than 2% of the plate thickness",
                              "slab probes come from the planar construction validated by C06; ambient = background adiabat (single-feature worlds)"]),
-    "C05": dict(engine="rc", exe="c05", quick=(2, 8), thorough=(20, 16), san=dict(quick=(0.1, 4), thorough=(1.5, 12)),
+    "C05": dict(engine="rc", exe="c05", quick=(2, 8), thorough=(20, 16), san=dict(quick=(0.1, 4), thorough=(1.5, 6)),
                 assumptions=["oracles are written from the parameter documentation; where it is not specific (smooth composition, Euler-angle convention, slab/fault sentinel depths) only the weaker documented part is asserted",
                              "ridge models are checked in cartesian worlds with a ridge along x = const (distance to the ridge is then |x - x_ridge| by definition)",
                              "slab/fault distances come from the planar construction validated by C06"]),
@@ -41,10 +41,10 @@ PROPS = {
                 extra_builds=[("tsan", ["c14_threads", "gwb-grid"], {"VERIF_TSAN_EXE": "c14_threads", "VERIF_TSAN_GRID": "wb/bin/gwb-grid"})],
                 assumptions=["schedules are sampled, not enumerated: ThreadSanitizer flags an unsynchronised conflicting pair whenever both accesses execute, but a race on a path no generated query reaches stays invisible",
                              "worlds without random models (the statement's scope)"]),
-    "C11": dict(engine="rc", exe="c11", quick=(2, 8), thorough=(20, 16), san=dict(quick=(0.1, 4), thorough=(1.5, 12)),
+    "C11": dict(engine="rc", exe="c11", quick=(2, 8), thorough=(20, 16), san=dict(quick=(0.1, 4), thorough=(1.5, 6)),
                 assumptions=["the depth used by a feature is observed by bisection on the membership indicator (resolves to 1e-10 m, compared with 1 mm tolerance)",
                              "every corner gets the bare '[value]' entry as documented default"]),
-    "C10": dict(engine="rc", exe="c10", quick=(2, 8), thorough=(20, 16), san=dict(quick=(0.1, 4), thorough=(1.5, 12)),
+    "C10": dict(engine="rc", exe="c10", quick=(2, 8), thorough=(20, 16), san=dict(quick=(0.1, 4), thorough=(1.5, 6)),
                 assumptions=["trenches bend by at most 25 degrees and probe points sit 2..30 km beside the trench, so the foot of a point generated beside trench segment k lies on segment k-1, k or k+1",
                              "models are uniform (values recognisable exactly)"]),
     "C07": dict(engine="rc", exe="c07", quick=(2, 8), thorough=(20, 16),
@@ -61,14 +61,14 @@ PROPS = {
                 fuzz=dict(targets=["fz_construct", "fz_struct"], want=lambda sig: "non-finite" not in sig),
                 assumptions=["'violates the published schema' is judged against the schema emitted by the tree under test, walked by engine/schema_walk.h",
                              "this executable runs without sanitizers; every case runs in its own process so that SIGSEGV/abort are seen; the sanitizer/fuzzing part is run by the same check (see coverage.fuzz)"]),
-    "C13": dict(engine="rc", exe="c13", quick=(1, 6), thorough=(20, 16), san=dict(quick=(0.25, 6), thorough=(3, 12)),
+    "C13": dict(engine="rc", exe="c13", quick=(1, 6), thorough=(20, 16), san=dict(quick=(0.25, 6), thorough=(3, 8)),
                 fuzz=dict(targets=["fz_struct"], want=lambda sig: "non-finite" in sig),
                 assumptions=["world parameters stay inside the physical domain (positive constants, dips in (0,180), thickness > 0); degenerate *parameters* belong to C12",
                              "a query may throw std::exception with a message; it may not crash, hang (120 s per case) or return NaN/Inf"]),
-    "C15": dict(engine="rc", exe="c15", quick=(1, 4), thorough=(20, 16), san=dict(quick=(0.1, 4), thorough=(1.5, 12)),
+    "C15": dict(engine="rc", exe="c15", quick=(1, 4), thorough=(20, 16), san=dict(quick=(0.1, 4), thorough=(1.5, 6)),
                 assumptions=["'a draw happened' is observed by comparing the world's public engine state before and after a query",
                              "rotation validity tolerance 1e-12 on R^T R - I and det R - 1"]),
-    "C16": dict(engine="rc", exe="c16", quick=(1, 4), thorough=(20, 16), san=dict(quick=(0.1, 4), thorough=(1.5, 12)),
+    "C16": dict(engine="rc", exe="c16", quick=(1, 4), thorough=(20, 16), san=dict(quick=(0.1, 4), thorough=(1.5, 6)),
                 assumptions=["the native reference world receives exactly the same sequence of calls as the wrapped one (random models draw per call)",
                              "declaration files are observed by listing a scratch working directory"]),
     "C09": dict(engine="rc", exe="c09", quick=(2, 8), thorough=(20, 16),
@@ -77,16 +77,16 @@ PROPS = {
     "C04": dict(engine="rc", exe="c04", quick=(2, 8), thorough=(15, 16),
                 assumptions=["boundary points are asserted only where coordinates are exactly representable (cartesian lattice); elsewhere a 1e-9 relative band is skipped",
                              "plumes are kept away from the +-180 meridian here (longitude aliases of plumes belong to C08)"]),
-    "C02": dict(engine="rc", exe="c02", quick=(1, 6), thorough=(15, 16), san=dict(quick=(0.1, 4), thorough=(1.5, 12)),
+    "C02": dict(engine="rc", exe="c02", quick=(1, 6), thorough=(15, 16), san=dict(quick=(0.1, 4), thorough=(1.5, 6)),
                 assumptions=["which features contain a point is decided by the code itself on single-feature worlds (independent of the stack)",
                              "fold oracle covers uniform temperature/composition models; other models are covered by the deletion/permutation relation",
                              "velocity: only 'a slab/fault without velocity models leaves the velocity as it was' is asserted"]),
-    "C01": dict(engine="rc", exe="c01", quick=(1, 6), thorough=(15, 16), san=dict(quick=(0.2, 6), thorough=(2, 12)),
+    "C01": dict(engine="rc", exe="c01", quick=(1, 6), thorough=(15, 16), san=dict(quick=(0.2, 6), thorough=(2, 8)),
                 assumptions=["random models are excluded (C15 covers them)", "'stand-alone' = the same entry point with a one-element list on a twin world built from the same file, plus temperature()/composition()/grains()"]),
     "C03": dict(engine="rc", exe="c03", quick=(1, 8), thorough=(20, 16),
                 assumptions=["'outside every feature' is established by construction (far points) or by the code's own tag == -1",
                              "background closed form evaluated in double with relative tolerance 1e-13"]),
-    "C19": dict(engine="rc", exe="c19", quick=(1, 4), thorough=(12, 16), san=dict(quick=(0.1, 4), thorough=(1.5, 12)),
+    "C19": dict(engine="rc", exe="c19", quick=(1, 4), thorough=(12, 16), san=dict(quick=(0.1, 4), thorough=(1.5, 6)),
                 assumptions=["dense sampling (4000 samples per curve segment) stands for 'every curve point'",
                              "exact polygon oracle restricted to coordinates whose arithmetic is exact in double",
                              "great-circle oracle atan2(|axb|,a.b) evaluated in double; tolerance 3e-8 rad"]),
@@ -365,7 +365,7 @@ def check_rc(pid, cfg, tier, seed):
         sexe = os.path.join(sdir, "sp_" + cfg["exe"])
         swork = os.path.join(work, "san")
         os.makedirs(swork, exist_ok=True)
-        senv = dict(env_base, VERIF_MULT=str(smult), VERIF_OUT=swork, ASAN_OPTIONS="detect_leaks=0:abort_on_error=1:symbolize=1", UBSAN_OPTIONS="print_stacktrace=1")
+        senv = dict(env_base, VERIF_MULT=str(smult), VERIF_OUT=swork, ASAN_OPTIONS="detect_leaks=0:abort_on_error=1:symbolize=1:quarantine_size_mb=32:malloc_context_size=4", UBSAN_OPTIONS="print_stacktrace=1")
         t1 = time.time()
         srun = []
         for i in range(min(sprocs, NCPU)):
@@ -381,11 +381,15 @@ def check_rc(pid, cfg, tier, seed):
             logtxt = open(os.path.join(swork, "s%d.log" % i), errors="replace").read()
             if not os.path.exists(frag):
                 cur = os.path.join(swork, "s%d.current.json" % i)
-                if os.path.exists(cur) and all(run_replay(sexe, cur, env_extra=senv)[0] == "fail" for _ in range(3)):
+                # reproduced = the case alone makes the sanitizer executable die again (an ordinary REPLAY-FAIL of that case, e.g. a
+                # listed finding, is not a crash; a process killed from outside - status -9, the kernel's out-of-memory killer when
+                # many sanitizer processes run beside compilers - does not come back either)
+                reps = [run_replay(sexe, cur, env_extra=senv) for _ in range(3)] if os.path.exists(cur) else []
+                if reps and all(x[0] == "fail" and x[1].startswith("crash-signal") for x in reps):
                     dst = save_replay(pid, cur, "sanitizer-crash", extra=dict(flavour="asan"))
-                    violations.append((dst, "sanitizer build aborted and the saved case reproduces it: " + sanitizer_summary(logtxt)))
+                    violations.append((dst, "sanitizer build aborted and the saved case reproduces it: " + sanitizer_summary(logtxt + reps[0][3])))
                 else:
-                    notes.append("sanitizer process s%d ended with status %s without a reproducible case: %s" % (i, p.returncode, logtxt[-400:]))
+                    notes.append("sanitizer process s%d ended with status %s without a reproducible case (inconclusive): %s" % (i, p.returncode, logtxt[-300:]))
                 continue
             d = json.load(open(frag))
             for name, sm in d["subs"].items():
